@@ -2,7 +2,7 @@
 # try_seed.sh <prop> <n> [check ids...]: apply a seeded change to /repo, run the quick checks, undo.
 # Output: /tmp/mut/out/<prop>/detect_<n>.txt
 P=$1; N=$2; shift 2; CHECKS=${@:-$P}
-O=/tmp/mut/out/$P
+O=${MUT_O:-/tmp/mut/out}/$P
 cd /verif
 git -C /repo diff --quiet || { echo "/repo not clean"; exit 2; }
 git -C /repo apply $O/patch_$N.diff || exit 3
